@@ -527,11 +527,9 @@ pub fn replay(r: &Value) -> bool {
         }
         _ => {
             println!("statistical / in-situ cases are replayed by re-running the leg with the recorded seed");
+            crate::util::not_replayable();
             return false;
         }
     }
-    for v in &rep.violations {
-        println!("{}: {}", v.signature, v.detail);
-    }
-    rep.violations.is_empty()
+    crate::util::print_replay(&rep)
 }
